@@ -23,6 +23,7 @@ type UCase struct {
 	Op     string `json:"op"`     // makunbound | fmakunbound | unintern
 	Late   bool   `json:"late"`   // the packages use the owner before it exports the name
 	Rebind bool   `json:"rebind"` // the owner assigns / defines once more before the unbinding step
+	Chain  int    `json:"chain"`  // a further package uses the unbinding package and the owner: 1 in that order, 2 owner first
 }
 
 var uctr atomic.Int64
@@ -30,11 +31,11 @@ var uctr atomic.Int64
 func runUnbindInherited(c UCase) *h.Result {
 	res := &h.Result{NonTrivial: true}
 	n := uctr.Add(1)
-	a, b, d := fmt.Sprintf("c13ua%d", n), fmt.Sprintf("c13ub%d", n), fmt.Sprintf("c13uc%d", n)
+	a, b, d, e := fmt.Sprintf("c13ua%d", n), fmt.Sprintf("c13ub%d", n), fmt.Sprintf("c13uc%d", n), fmt.Sprintf("c13ud%d", n)
 	scope := slip.NewScope()
 	defer func() {
 		_ = ev.Eval(scope, "(in-package :common-lisp-user)")
-		for _, p := range []string{b, d, a} {
+		for _, p := range []string{e, b, d, a} {
 			if pk := slip.FindPackage(p); pk != nil {
 				_ = ev.Try(func() slip.Object { slip.RemovePackage(pk); return nil })
 			}
@@ -45,10 +46,16 @@ func runUnbindInherited(c UCase) *h.Result {
 		name, def, read = "f", "(defun f () 11)", "(f)"
 	}
 	var steps []string
-	for _, p := range []string{a, b, d} {
+	for _, p := range []string{a, b, d, e} {
 		steps = append(steps, fmt.Sprintf("(defpackage %s (:use common-lisp))", p))
 	}
 	use := []string{"(in-package :" + b + ")", "(use-package '" + a + ")", "(in-package :" + d + ")", "(use-package '" + a + ")"}
+	switch c.Chain {
+	case 1:
+		use = append(use, "(in-package :"+e+")", "(use-package '"+b+")", "(use-package '"+a+")")
+	case 2:
+		use = append(use, "(in-package :"+e+")", "(use-package '"+a+")", "(use-package '"+b+")")
+	}
 	own := []string{"(in-package :" + a + ")", def, "(export '" + name + ")"}
 	if c.Late {
 		steps = append(append(steps, use...), own...)
@@ -71,6 +78,9 @@ func runUnbindInherited(c UCase) *h.Result {
 	}
 	probes := []struct{ in, form string }{
 		{a, read}, {d, read}, {"common-lisp-user", strings.Replace(read, name, a+":"+name, 1)}, {"common-lisp-user", strings.Replace(read, name, a+"::"+name, 1)},
+	}
+	if c.Chain > 0 {
+		probes = append(probes, struct{ in, form string }{e, read})
 	}
 	for _, p := range probes {
 		_ = ev.Eval(scope, "(in-package :"+p.in+")")
@@ -100,8 +110,10 @@ func testUnbindInherited(t *testing.T) {
 			for _, op := range ops {
 				for _, late := range []bool{false, true} {
 					for _, rebind := range []bool{false, true} {
-						if !yield(UCase{Fn: fn, Op: op, Late: late, Rebind: rebind}) {
-							return
+						for chain := 0; chain < 3; chain++ {
+							if !yield(UCase{Fn: fn, Op: op, Late: late, Rebind: rebind, Chain: chain}) {
+								return
+							}
 						}
 					}
 				}
